@@ -198,9 +198,15 @@ def mapAll {α β : Type} (f : α → Except Err β) : List α → Except Err (L
       | .error e => .error e
       | .ok ys => .ok (y :: ys)
 
+/-- more positionals than `accept_positionals(n)` allows (`none`: any number) -/
+def tooMany (d : Decl) (k : Nat) : Bool :=
+  match d.allowed with
+  | some n => decide (n < k)
+  | none => false
+
 def interp (d : Decl) (env : Env) (items : List Item) : Except Err Result :=
   let pos := positionalsOf items
-  if (match d.allowed with | some n => decide (n < pos.length) | none => false) then .error .user else
+  if tooMany d pos.length then .error .user else
   match mapAll (interpOpt env items) d.opts, mapAll (interpMul env items) d.muls,
         mapAll (interpTog env items) d.togs with
   | .ok os, .ok ms, .ok ts =>
